@@ -106,3 +106,25 @@ where
     let outputs = mem.0.gather(f.t.table.get_range(..));
     (mem.0, outputs)
 }
+
+#[cfg(feature = "verif-hooks")]
+pub mod verif_hooks_local {
+    use super::*;
+    pub fn eval_order<K: ArrayKind, O, A, T: Default>(
+        f: &OpenHypergraph<K, O, A>,
+        s: K::Type<T>,
+        order: Vec<FiniteFunction<K>>,
+        apply: impl Fn(
+            SemifiniteFunction<K, A>,
+            IndexedCoproduct<K, SemifiniteFunction<K, T>>,
+        ) -> IndexedCoproduct<K, SemifiniteFunction<K, T>>,
+    ) -> (K::Type<T>, K::Type<T>)
+    where
+        K::Type<K::I>: NaturalArray<K>,
+        K::Type<T>: Array<K, T>,
+        K::Type<O>: Array<K, O>,
+        K::Type<A>: Array<K, A>,
+    {
+        super::eval_order(f, s, order, apply)
+    }
+}
